@@ -38,7 +38,7 @@ class C20(hc.PProp):
             u = rng.randrange(n)
             named = rng.choice([None, None, 'loc', 'cloc', 'both'])
             w = rng.randrange(n)
-            form = rng.choice(['rel', 'abs', 'other'])
+            form = rng.choice(['rel', 'abs', 'other', 'relseg', 'reldot'])
             st = {'u': u, 'method': rng.choice(['POST', 'PUT', 'DELETE', 'PATCH']), 'status': rng.choice([200, 201, 204, 303, 302, 400, 404, 500, 503]),
                   'named': named, 'w': w, 'form': form}
             if st['method'] != 'DELETE':
@@ -58,7 +58,8 @@ class C20(hc.PProp):
             if 'status' not in st:
                 continue
             hs = [(b'Content-Length', b'0' if st['status'] == 204 else b'4'), (b'X-Sim-Unsafe', b'%d' % st['id'])]
-            target = {'rel': b'/c%d' % st['w'], 'abs': b'http://10.0.0.1/c%d' % st['w'], 'other': b'http://10.0.0.9/c%d' % st['w']}[st['form']]
+            target = {'rel': b'/c%d' % st['w'], 'abs': b'http://10.0.0.1/c%d' % st['w'], 'other': b'http://10.0.0.9/c%d' % st['w'],
+                      'relseg': b'c%d' % st['w'], 'reldot': b'./c%d' % st['w']}[st['form']]   # relative references without a leading slash resolve against /c<u> to /c<w> (RFC 3986 5.2)
             if st['named'] in ('loc', 'both'):
                 hs.append((b'Location', target))
             if st['named'] in ('cloc', 'both'):
@@ -83,8 +84,8 @@ class C20(hc.PProp):
             if st and 'status' in st and r.resp.get(b'x-sim-unsafe') is not None and 200 <= r.resp.status < 400:
                 stats['unsafe_success'] += 1
                 inval.append((r.seq_send, r.seq_end, st['u'], 'target of %s request %s (status %d)' % (st['method'], r.id, r.resp.status), False))
-                if st['named'] and st['form'] in ('rel', 'abs'):
-                    inval.append((r.seq_send, r.seq_end, st['w'], '%s of %s request %s (status %d)' % ({'loc': 'Location', 'cloc': 'Content-Location', 'both': 'Location/Content-Location'}[st['named']], st['method'], r.id, r.resp.status), True))
+                if st['named'] and st['form'] in ('rel', 'abs', 'relseg', 'reldot'):
+                    inval.append((r.seq_send, r.seq_end, st['w'], '%s of %s request %s (status %d)' % ({'loc': 'Location', 'cloc': 'Content-Location', 'both': 'Location/Content-Location'}[st['named']], st['method'], r.id, r.resp.status), st['form']))
         for r in recs:
             if r.step is None or 'status' in r.step or r.resp.status != 200 or r.ver is None:
                 continue
@@ -100,7 +101,7 @@ class C20(hc.PProp):
                     hit_judged = True
                     stats['named_url_gets_judged' if named else 'post_unsafe_gets_judged'] += 1
                     if f_seq < s_send:
-                        V.append(Violation('C20:stale-after-unsafe:%s' % ('named' if named else 'target'), 'GET %s for url %d was served version %d from cache; that version was fetched before the %s, which had completed before the GET was sent' % (r.id, r.u, r.ver, why)))
+                        V.append(Violation('C20:stale-after-unsafe:%s' % ('named' + ('' if named in ('rel', 'abs') else ':' + named) if named else 'target'), 'GET %s for url %d was served version %d from cache; that version was fetched before the %s, which had completed before the GET was sent' % (r.id, r.u, r.ver, why)))
                         break
             if not hit_judged:
                 stats['control_hits'] += 1
